@@ -344,6 +344,14 @@ SEG_DECISIVE = {"C01", "C03", "C07", "C09", "C13", "C16", "C18"}      # properti
 HEAP_DECISIVE = {"C01", "C03", "C08", "C10", "C12", "C16"}      # properties for which malformed page queues of a heap are a violation
 
 
+# arena dumps: which obligation of MiArenaValid / ArenaTrace is a violation of which property (for the others it is a note)
+ARENA_OBLIGATIONS = {"TailBlocked": {"C14", "C15"}, "BitsInside": {"C14"}, "PurgeNotInUse": {"C13", "C14"}, "AbandonedInUse": {"C09"},
+                     "InUseDirty": {"C04", "C13"}, "DirtyMonotone": {"C04", "C13"}, "PinnedNoPurge": {"C13"},
+                     "PurgeScheduled": {"C18"}, "GlobalCoversArenas": {"C18"}, "ExpireBounded": {"C18"}, "AfterCollectNotDue": {"C18"},
+                     "AfterForcedCollectClean": {"C11"}, "ArenasStay": {"C14"}}
+ARENA_DECISIVE = set().union(*ARENA_OBLIGATIONS.values())
+
+
 def _snapshot_pass(V, prop, paths, tag, kind, prefix, module, decisive, what):
     od = outdir(prop)
     allp = os.path.join(od, "%s_%s_%s.ndjson" % (prefix, prop, tag))
@@ -370,23 +378,27 @@ def _snapshot_pass(V, prop, paths, tag, kind, prefix, module, decisive, what):
         seen.setdefault(name, (line, detail, 0))
         seen[name] = (seen[name][0], seen[name][1], seen[name][2] + 1)
     for name, (line, detail, cnt) in sorted(seen.items()):
-        if prop in decisive:
+        dec = decisive
+        if kind == "arenas":
+            dec = ARENA_OBLIGATIONS.get(name.split(".", 1)[-1], set())
+        if prop in dec:
             keep = os.path.join(keepdir(prop), os.path.basename(allp))
             shutil.copyfile(allp, keep)
             V.violation("%s:%s" % (name, kind), "%s:%d" % (keep, line), "%s is not well-formed: %s (%d dumps)" % (what, name, cnt))
         else:
-            V.note("%s guard (decisive for %s) failed on %d dump(s): %s" % (what, ",".join(sorted(decisive)), cnt, name))
+            V.note("%s guard (decisive for %s) failed on %d dump(s): %s" % (what, ",".join(sorted(dec)), cnt, name))
     log("  TLC validated %d %s (%s)" % (n, what + "s", module))
     return n
 
 
 def seg_pass(V, prop, paths, tag="segs"):
-    """Move the slice-table dumps (`seg` events) and the heap dumps (`heap` events) of the given traces into one file each and validate them
-    with SegTrace (MiSegValid) / HeapTrace (MiHeapValid): the traces keep everything else.  Guard failures are violations for the properties
-    in SEG_DECISIVE / HEAP_DECISIVE, notes for the others."""
+    """Move the slice-table dumps (`seg` events), the heap dumps (`heap` events) and the arena dumps (`arenas` events) of the given traces into
+    one file each and validate them with SegTrace (MiSegValid) / HeapTrace (MiHeapValid) / ArenaTrace (MiArenaValid): the traces keep
+    everything else.  Guard failures are violations for the properties in SEG_DECISIVE / HEAP_DECISIVE / ARENA_DECISIVE, notes for the others."""
     ns = _snapshot_pass(V, prop, paths, tag, "seg", "segs", "SegTrace", SEG_DECISIVE, "segment slice table")
     nh = _snapshot_pass(V, prop, paths, tag, "heap", "heaps", "HeapTrace", HEAP_DECISIVE, "heap page-queue dump")
-    return {"segment_tables_validated": ns, "heap_dumps_validated": nh}
+    na = _snapshot_pass(V, prop, paths, tag, "arenas", "arenas", "ArenaTrace", ARENA_DECISIVE, "arena table dump")
+    return {"segment_tables_validated": ns, "heap_dumps_validated": nh, "arena_dumps_validated": na}
 
 
 def sample_lines(path, n=3, maxlen=400):
